@@ -291,7 +291,7 @@ def main():
         # ---- C15: identical encoding
         g = Gen(); build_prelude(g, sid, tree, True, True)
         g.emit('same_encoding(borrowed, &owned);')
-        out += harness('c15_enc_' + sid, 'tier=%s class=core cap=1200 bounds="%s: to_slice(borrowed) == to_slice(owned)"' % (tier, desc), 34, g.lines)
+        out += harness('c15_enc_' + sid, 'tier=%s class=core cap=1800 bounds="%s: to_slice(borrowed) == to_slice(owned)"' % (tier, desc), 34, g.lines)
         # ---- C15 best-effort: From conversion equals the documented owned tree
         g = Gen(); build_prelude(g, sid, tree, True, True)
         g.emit('conversion_matches(borrowed, &owned);')
@@ -320,7 +320,7 @@ def main():
             g.emit('kani::cover!(path.len == 3, "3-byte path reachable");')
             lines = g.lines
             hook = ' hooks=H2' if who == 'const' else ''
-            h = harness('c16_%s_stream_%s' % (who, sid), 'tier=%s class=core cap=900 bounds="%s; path 0..=3 UTF-8 bytes: the %s hasher feeds exactly path ++ documented tag-and-name stream to hash_update" stubs="hash_update=byte logger (kernel verified separately)"%s' % (tier, desc, 'run-time' if who == 'owned' else 'compile-time', hook), 40, lines)
+            h = harness('c16_%s_stream_%s' % (who, sid), 'tier=%s class=core cap=1800 bounds="%s; path 0..=3 UTF-8 bytes: the %s hasher feeds exactly path ++ documented tag-and-name stream to hash_update" stubs="hash_update=byte logger (kernel verified separately)"%s' % (tier, desc, 'run-time' if who == 'owned' else 'compile-time', hook), 40, lines)
             h.insert(1, '#[kani::stub(postcard_schema::key::hash::fnv1a64::hash_update, crate::shapes::hash_update_logger)]')
             out += h
         # ---- C16 (3): end-to-end, nothing stubbed: key == FNV-1a(path ++ stream) (best-effort, thorough)
@@ -347,7 +347,7 @@ def main():
             g.emit('assert!(contains(text.as_bytes(), n%d.bytes()), "rendering does not mention a top-level name");' % n)
         g.emit('kani::cover!(text.len() > 0, "rendering produced");')
         g.emit('core::mem::forget(text);')
-        out += harness('c19_pseudo_' + sid, 'tier=%s class=core cap=900 bounds="%s: to_pseudocode() returns and mentions the type, field and variant names"' % (tier, desc), 34, g.lines)
+        out += harness('c19_pseudo_' + sid, 'tier=%s class=core cap=1800 bounds="%s: to_pseudocode() returns and mentions the type, field and variant names"' % (tier, desc), 34, g.lines).copy() if False else harness('c19_pseudo_' + sid, 'tier=%s class=core cap=2400 bounds="%s: to_pseudocode() returns and mentions the type, field and variant names"' % (tier, desc), 34, g.lines)
         # ---- C19 discover
         g = Gen(); build_prelude(g, sid, tree, False, True)
         ns = nodes(tree, [])
@@ -358,7 +358,7 @@ def main():
             if nm is not None:
                 g.emit('assert!(same_bytes(log.name(%d), n%d.bytes()), "collected type #%d carries a different name");' % (i, nm, i))
         g.emit('kani::cover!(log.n > 0, "something collected");')
-        out += harness('c19_discover_' + sid, 'tier=%s class=core cap=900 bounds="%s: discover_tys logs exactly the root and every nested schema (pre-order), HashSet::insert stubbed by a logger" stubs="HashSet::insert=logger;RandomState::new=arbitrary keys"' % (tier, desc), 8, g.lines)
+        out += harness('c19_discover_' + sid, 'tier=%s class=core cap=1800 bounds="%s: discover_tys logs exactly the root and every nested schema (pre-order), HashSet::insert stubbed by a logger" stubs="HashSet::insert=logger;RandomState::new=arbitrary keys"' % (tier, desc), 8, g.lines)
         # the stub attribute must follow #[kani::proof]
     text = '\n'.join(out) + '\n'
     # Shapes containing the type-level Struct kind: CBMC does not fold the (niche-encoded) discriminant of
@@ -380,7 +380,7 @@ def main():
             return m.group(0).replace('class=core', 'class=best').replace('cap=900', 'cap=600').replace('cap=1200', 'cap=600')
         text = re.sub(r'//@ [^\n]*\nfn c1[569]_[a-z0-9_]*_%s\(\)' % sid, demote, text)
     # attach stub attributes to discover harnesses
-    text = text.replace('#[kani::proof]\n#[kani::unwind(8)]\n//@ tier=quick class=core cap=900 bounds="shape', '#[kani::proof]\n#[kani::unwind(8)]\n//@ tier=quick class=core cap=900 bounds="shape')
+    text = text.replace('#[kani::proof]\n#[kani::unwind(8)]\n//@ tier=quick class=core cap=1800 bounds="shape', '#[kani::proof]\n#[kani::unwind(8)]\n//@ tier=quick class=core cap=1800 bounds="shape')
     fixed = []
     lines = text.split('\n')
     for i, ln in enumerate(lines):
